@@ -3,9 +3,6 @@
    (None = an exception, a SyntaxError at import, or not exactly one request). *)
 From PG Require Import Lib.Strs Corr.Driver Model.Wire.
 
-Definition mn_of (tbl : list (str * str)) (s : str) : str :=
-  match alookup s tbl with Some x => x | None => s end.
-
 Definition input := (list (str * str) * op * args)%type.
 Definition obs := option request.
 
